@@ -125,10 +125,10 @@ class History:
                 acks_seen += [m[0] for m in msgs]
             elif k == "CS" and code == "0":
                 self.sub_inst[rt[2]] = self.sub_inst.get(rt[2], 0) + 1
-                # the lease length the property promises (requested, at least 10 s; capped at the 600 s every
-                # implementation grants), not the value the server echoes
+                # the lease length the property promises (what was requested, at least 10 s), not the value the
+                # server echoes
                 try:
-                    self.sub_ackdl[rt[2]] = max(10, min(int(ot[3]), 600))
+                    self.sub_ackdl[rt[2]] = max(10, int(ot[3]))
                 except ValueError:
                     self.sub_ackdl[rt[2]] = int(rt[4])
                 ev["sub"] = rt[2]
